@@ -163,8 +163,8 @@ def cnv_lengthorpercent(attribute, arg, element):
     return arg
 
 def cnv_list_linkage_type(attribute, arg, element):
-    if arg not in ('selection','selection-indices'):
-        raise ValueError( "'%s' is not either 'selection' or 'selection-indices'" % arg)
+    if arg not in ('selection','selection-indexes'):
+        raise ValueError( "'%s' is not either 'selection' or 'selection-indexes'" % arg)
     return str(arg)
 
 def cnv_metavaluetype(attribute, arg, element):
